@@ -129,14 +129,15 @@ Definition lldp_type (t : N) : bytes :=
   | 5 => s2b "name" | 6 => s2b "description" | 7 => s2b "capabilities" | 8 => s2b "mngntaddr"
   | _ => dec t
   end.
-(* LLDP.Capability(v): names of the bits of v[1], comma separated *)
+(* LLDP.Capability(v): names of the bits 0x01 .. 0x80 of v[1] in that order (IEEE 802.1AB table 8-4), comma separated
+   (as found the masks were mirrored; repaired by VIEWS in /repo bf5afdb) *)
 Definition lldp_capability (v : bytes) : bytes :=
   if Nat.ltb (List.length v) 2 then []
   else let b := nth 1 v 0 in
-       let s := (if bit b 128 then s2b "other," else []) ++ (if bit b 64 then s2b "repeater," else [])
-                ++ (if bit b 32 then s2b "bridge," else []) ++ (if bit b 16 then s2b "AP," else [])
-                ++ (if bit b 8 then s2b "router," else []) ++ (if bit b 4 then s2b "phone," else [])
-                ++ (if bit b 2 then s2b "docsis," else []) ++ (if bit b 1 then s2b "station," else []) in
+       let s := (if bit b 1 then s2b "other," else []) ++ (if bit b 2 then s2b "repeater," else [])
+                ++ (if bit b 4 then s2b "bridge," else []) ++ (if bit b 8 then s2b "AP," else [])
+                ++ (if bit b 16 then s2b "router," else []) ++ (if bit b 32 then s2b "phone," else [])
+                ++ (if bit b 64 then s2b "docsis," else []) ++ (if bit b 128 then s2b "station," else []) in
        removelast s.
 (* LLDP.FastLog: walk the TLVs from pos; getTLV: type = p[n]>>1, length = (p[n]&1)<<8 + p[n+1];
    stops at the end TLV, at type 0, or when the value does not lie inside the frame.  Every step
